@@ -68,6 +68,8 @@ type matchRec struct {
 	doneSeq int
 	t       time.Duration
 	doneT   time.Duration // when the matcher returned its verdict (later than t if it blocked)
+	off     bool          // invoked on another goroutine than the caller's
+	end     simrt.Stamp   // (off only) taken when the matcher returned
 	info    pktInfo
 	ptr     interface{}
 	isNil   bool
@@ -419,6 +421,16 @@ func (st *ccState) doCall(ci int, sp callSpec, attempt int, nth int) *ccCall {
 	c.returned = true
 	c.err = err
 	c.ret = r
+	for _, m := range c.matches {
+		// the client ran this call's matcher on a goroutine of its own: every such invocation
+		// must have finished, in the happens-before sense, when the call returns (it does if
+		// the client runs matchers under the lock the call takes on its way out; it does not if
+		// it runs them unlocked), or a matcher with state races with its caller
+		if m.off && st.cfg.hb && (!m.end.OK || !s.Before(m.end)) {
+			s.Violate("R7-matcher-unordered", "call %d returned while an invocation of its matcher on another goroutine (hand-over at #%d) was not ordered before the return: a matcher that keeps state races with its caller", c.id, m.seq)
+			break
+		}
+	}
 	desc := "ok"
 	if err != nil {
 		desc = "err: " + err.Error()
@@ -441,7 +453,15 @@ func (st *ccState) matcher(c *ccCall, m interface{}) bool {
 	mr := &matchRec{t: s.Now(), doneT: s.Now(), info: info, ptr: m, isNil: isNil}
 	if st.cur[s.CurTask()] != c {
 		c.offCaller = true // the client runs this call's matcher on a goroutine of its own
+		mr.off = true
 		s.Probe("matcher-invoked-off-the-callers-goroutine")
+		if c.returned {
+			// C10: "none of this involves a data race". A matcher is the caller's code and may keep
+			// state; run by the client on another goroutine after the call has returned it is
+			// unordered with whatever the caller does next.
+			s.Violate("R7-matcher-after-return", "call %d: the client invoked the call's matcher (on another goroutine) after the call had returned", c.id)
+		}
+		defer func() { mr.end = s.Stamp() }()
 	}
 	c.matches = append(c.matches, mr)
 	if isNil {
